@@ -1,7 +1,7 @@
 """Per-property job tables for ./check."""
 
 SETUP_FLAVOURS = ["debug", "release"]
-HOOK_COMMITS = ["7097985", "11c3a47", "f0bf0f9"]
+HOOK_COMMITS = ["7097985", "11c3a47", "f0bf0f9", "022e47b"]
 SETUP_EXTRAS = ["roto-bin", "cli-host"]
 NOT_YET = {}
 
@@ -259,5 +259,96 @@ PROPS = {
         "assumptions": ["the shared-vector model (harness/rvmon/src/fam/listcore.rs) is the documented meaning of List"],
         "min_tags": 60,
         "budget": {"quick": 600, "thorough": 2400},
+    },
+    "C04": {
+        "claim": "Exhaustive cross-product monitor over a finite catalogue: for every pair (script type term, requested Rust type "
+                 "term) of an 87-term boundary catalogue, every arity pair, every transposition of a 7-parameter function, "
+                 "every filtermap payload combination and ~940 names, get_function::<F> must return Ok exactly for the "
+                 "documented mapping; every expected handle is also called with catalogue values.",
+        "design_ref": "DESIGN.md §4 C04",
+        "level_note": "Exhaustive over the catalogue (87 terms, depth <= 3), not over the infinite type grammar; unexpected "
+                      "handles are never called (that would be UB) but reported.",
+        "technique": "exhaustive enumeration of a finite type catalogue with an accept/refuse oracle (structural equality)",
+        "rule": "case = one row batch of the 87x87x2 request matrix, of the arity matrix (9x8), the transposition set, the "
+                "filtermap matrix (15x24), the name list (937x10) or the registered-type requests; evaluations = requests and "
+                "calls made; non-trivial = at least one verdict compared; distinct = distinct row",
+        "jobs": [
+            {"family": "sig-gate", "flavour": "release", "cases": {"quick": 0, "thorough": 0}},
+            {"family": "sig-gate", "flavour": "debug", "cases": {"quick": 0, "thorough": 0}, "args": {"stream": "debug"}},
+        ],
+        "exhaustive": True,
+        "assumptions": ["the macro-generated catalogue covers one representative of every constructor nesting and payload "
+                        "size/alignment class"],
+        "min_tags": 5,
+        "min_cases": {"quick": 90, "thorough": 90},
+        "budget": {"quick": 240, "thorough": 900},
+    },
+    "C05": {
+        "claim": "Identity monitor at the host boundary: for every catalogue term, edge and random values are sent along every "
+                 "route (Rust argument/return, host function argument/return at positions 1-7, method receiver, script "
+                 "locals and calls, Some/None/Ok/Err/Accept/Reject built or matched in the script, registered constants in "
+                 "two packages, context structs under all 24 field orders) and must arrive structurally equal; the drop "
+                 "ledger must balance after every call.",
+        "design_ref": "DESIGN.md §4 C05",
+        "level_note": "All catalogue terms x routes are walked; values are sampled (edge values first). Runs in debug and "
+                      "release builds because ABI disagreements can depend on optimisation.",
+        "technique": "identity (round-trip) monitoring of values across the host boundary + drop ledger, release and debug builds",
+        "rule": "case = one catalogue term (or context struct family) with >= 64 values per route (5000 thorough), edge values "
+                "first; evaluations = calls; events = comparisons; non-trivial = at least one value compared",
+        "jobs": [
+            {"family": "boundary", "flavour": "release", "cases": {"quick": 0, "thorough": 0}, "tiers": ["quick"]},
+            {"family": "boundary", "flavour": "release", "cases": {"quick": 0, "thorough": 0}, "args": {"values": 5000},
+             "tiers": ["thorough"]},
+            {"family": "boundary", "flavour": "debug", "cases": {"quick": 0, "thorough": 0}, "args": {"stream": "debug"}},
+            {"family": "corpus", "flavour": "release", "cases": {"quick": 0, "thorough": 0}, "args": {"prop": "C05"}, "shards": 1},
+        ],
+        "assumptions": ["structural equality of the catalogue's own generators/equalities (floats bitwise, NaN == NaN)"],
+        "min_tags": 10,
+        "min_cases": {"quick": 100, "thorough": 100},
+        "budget": {"quick": 240, "thorough": 1200},
+    },
+    "C18": {
+        "claim": "Reference-model monitor of registration: libraries built through the non-macro API (and fixed library! "
+                 "libraries) with at most one injected defect are added to a runtime; a harness model of the rules gives the "
+                 "expected verdict (panic = violation), and after success probe scripts reach every item by its declared "
+                 "path and by root-level use paths and compare identity tags.",
+        "design_ref": "DESIGN.md §4 C18",
+        "level_note": "A use inside a module is checked by its verdict and by not leaking into the root (imports are "
+                      "scope-local; scripts cannot be placed inside a runtime module). Sampled libraries.",
+        "technique": "reference-model monitoring of registration verdicts + reachability probes with identity tags",
+        "rule": "case = 1-3 libraries added to one runtime (1-12 items nested <= 3 modules, 8 harness types, 18 function "
+                "shapes, constants, impl blocks, use items; 70% shuffled; 55% with one injected defect from: bad name "
+                "classes, duplicates per scope and across adds, type registered twice, unregistered type in "
+                "signature/impl/constant, bad or clashing use); first 26 cases are fixed library! libraries and witnesses; "
+                "non-trivial = at least one verdict compared",
+        "jobs": [
+            {"family": "registration", "flavour": "debug", "cases": {"quick": 8000, "thorough": 120000}},
+            {"family": "registration", "flavour": "release", "cases": {"quick": 2000, "thorough": 40000}, "args": {"stream": "rel"}},
+        ],
+        "assumptions": ["the harness model encodes exactly the failure conditions named by the property"],
+        "min_tags": 40,
+        "budget": {"quick": 240, "thorough": 1200},
+    },
+    "C20": {
+        "claim": "Differential monitor on identical IR: a hook lowers each generated program once; the IR evaluator and the "
+                 "machine code generated from that same lowered IR are run on the same inputs; whenever the evaluator "
+                 "completes, its result and host-call log must equal the compiled code's. Evaluator panics are legal and "
+                 "counted.",
+        "design_ref": "DESIGN.md §4 C20",
+        "level_note": "Only entry points returning a scalar directly are used; a run in which fewer than 30% of the executions "
+                      "complete in the evaluator is inconclusive. Release build (the evaluator's arithmetic panics on "
+                      "overflow in debug), plus a smaller debug run.",
+        "technique": "differential runtime monitoring of IR evaluator vs JIT from the same lowered IR (hook)",
+        "rule": "rotogen 'evaluator' profile: non-recursive programs over scalars, records, enums, Option, strings and logging "
+                "host calls, 3 (quick) / 6 (thorough) input vectors each; non-trivial = the evaluator completed on at least "
+                "one input; evaluations = executions attempted",
+        "jobs": [
+            {"family": "evalcmp", "flavour": "release", "cases": {"quick": 30000, "thorough": 600000}},
+            {"family": "evalcmp", "flavour": "debug", "cases": {"quick": 3000, "thorough": 30000}, "args": {"stream": "debug"}},
+        ],
+        "assumptions": ["the JIT-compiled code is the reference (its own correctness is C01's business)"],
+        "min_tags": 60,
+        "min_ratio": {"counter_num": "evaluator_completed", "counter_den": ["evaluator_completed", "evaluator_panicked"], "min": 0.3},
+        "budget": {"quick": 240, "thorough": 1200},
     },
 }
